@@ -90,15 +90,16 @@ func (f *File) Read(p []byte) (int, error) {
 		w.logOp("read", f.opPath(), f.off, len(p), "closed")
 		return 0, perr("read", f.name, realos.ErrClosed)
 	}
+	if len(p) == 0 {
+		// os.File.Read returns before any system call
+		w.logOp("read", f.opPath(), f.off, 0, "0")
+		return 0, nil
+	}
 	switch f.kind {
 	case kReg:
 		if f.flag&(realos.O_WRONLY) != 0 {
 			w.logOp("read", f.opPath(), f.off, len(p), "ebadf")
 			return 0, perr("read", f.name, syscall.EBADF)
-		}
-		if len(p) == 0 {
-			w.logOp("read", f.opPath(), f.off, 0, "0")
-			return 0, nil
 		}
 		if f.off >= int64(len(f.ino.Data)) {
 			w.logOp("read", f.opPath(), f.off, len(p), "EOF")
@@ -215,6 +216,9 @@ func (f *File) apply(p []byte) int {
 	case kReg:
 		if f.flag&(realos.O_WRONLY|realos.O_RDWR) == 0 {
 			return 0
+		}
+		if len(p) == 0 {
+			return 0 // a zero-length write never extends the file
 		}
 		if f.flag&realos.O_APPEND != 0 {
 			f.off = int64(len(f.ino.Data))
